@@ -223,6 +223,8 @@ def item_kind(it, a, b):
         if a[ia:] != b[ia:] and sorted(a[ia:]) == sorted(b[ia:]):
             return "dump_mem_order"
         return "emul_content"
+    if t == "text":
+        return "render-of-parsed-line"
     if t == "dis":
         if a[:2] != b[:2]:
             return "render"
@@ -302,6 +304,13 @@ def corpus(run):
     cs = x86space.cases("quick", run.seed, thin=run.pick(40, 4)) + x86space.control_flow_cases()[::7] + x86space.x87_cases()[::5]
     items += [{"t": "dis", "b": b.hex()} for b in cs]
     items += emul_corpus(run.pick(60, 600), run.seed)
+    # lines whose operand is a sum / difference of several symbols: the rendering must name them in one order in every process
+    names = ["toto", "titi", "tutu", "alpha", "beta", ".LC0", ".LC1", "a", "zz", "polys", "Lvartmp91", "x_1", "sym", "foo", "bar", "baz"]
+    for i in range(0, len(names) - 2):
+        a, b, c = names[i], names[i + 1], names[i + 2]
+        for l in ("mov eax, DWORD PTR [%s+%s]" % (a, b), "mov eax, OFFSET FLAT:%s+%s+%s" % (a, b, c), "lea eax, [%s+%s+ecx*4+12]" % (b, a), "mov eax, OFFSET FLAT:%s-%s" % (a, b),
+                  "mov eax, DWORD PTR %s[0+eax*8]" % a, "add DWORD PTR [%s+%s+%s+ebx], 1" % (c, a, b), "push OFFSET FLAT:%s+%s" % (c, a)):
+            items.append({"t": "text", "l": l})
     return items
 
 
